@@ -97,6 +97,7 @@ fn main() {
             match (&compiled, &reference) {
                 (_, vh::refsem::Outcome::Unsupported(r)) => { unsup += 1; *reasons.entry(r.clone()).or_insert(0) += 1; }
                 (_, vh::refsem::Outcome::Budget) => { other += 1; }
+                (_, vh::refsem::Outcome::TypeError(r)) => { unsup += 1; *reasons.entry(format!("type error: {}", r)).or_insert(0) += 1; }
                 (vh::qv::RunOutcome::Value(c), vh::refsem::Outcome::Value(r)) => { if vh::refsem::normalize_cv(c) == vh::refsem::normalize_cv(r) { agree += 1; } else { disagree += 1; if disagree <= 40 || only.is_some() { println!("DISAGREE [{}]\n{}\n  compiled  => {}\n  reference => {}\n", it.origin, it.src.trim(), c.show(), r.show()); } } }
                 (vh::qv::RunOutcome::Error(_), vh::refsem::Outcome::Error(_)) => agree += 1,
                 (c, r) => { disagree += 1; if disagree <= 40 || only.is_some() { println!("DISAGREE-KIND [{}]\n{}\n  compiled  => {:?}\n  reference => {:?}\n", it.origin, it.src.trim(), c, r); } }
@@ -105,6 +106,37 @@ fn main() {
         println!("agree={} disagree={} unsupported={} other={}", agree, disagree, unsup, other);
         let mut rs: Vec<_> = reasons.into_iter().collect(); rs.sort_by_key(|x| std::cmp::Reverse(x.1));
         for (r, n) in rs.iter().take(25) { println!("  unsupported {:4} {}", n, r); }
+        return;
+    }
+    if args.len() >= 2 && args[1] == "c02-gen" {
+        vh::pool::quiet_panics();
+        let n: u64 = args.get(2).and_then(|s| s.parse().ok()).unwrap_or(10);
+        let seed: u64 = args.get(3).and_then(|s| s.parse().ok()).unwrap_or(1);
+        let show = args.get(4).map(|s| s == "show").unwrap_or(false);
+        let b = vh::qv::builtins(); let mods = vh::refsem::std_sources("/repo");
+        let (mut ag, mut rej, mut inc, mut dis) = (0, 0, 0, 0);
+        let mut whys: std::collections::BTreeMap<String, usize> = Default::default();
+        for j in 0..n {
+            let mut rng = vh::rng::Rng::derive(seed, "C02-gen", 0, j);
+            let fuel = *rng.pick(&[4i64, 8, 16, 30, 60]);
+            let mut g = vh::c02::Gen::new(&mut rng, fuel);
+            let src = g.program();
+            let src2 = src.clone(); let b2 = b.clone(); let mods2 = mods.clone();
+            let h = std::thread::Builder::new().stack_size(512 << 20).spawn(move || vh::c02::judge(&src2, &b2, &mods2, None)).unwrap();
+            match h.join() {
+                Ok(vh::c02::Verdict::Agree) => { ag += 1; if show { println!("AGREE\n{}\n", src); } }
+                Ok(vh::c02::Verdict::Rejected) => { rej += 1; if show || args.get(4).map(|s| s == "rej").unwrap_or(false) { println!("REJECTED {:?}\n{}\n", vh::procsys::compile_entry(&src, &b).err(), src); } }
+                Ok(vh::c02::Verdict::Inconclusive(w)) => { inc += 1; *whys.entry(w).or_insert(0) += 1; }
+                Ok(vh::c02::Verdict::Disagree(c, r, ev)) => { dis += 1; println!("events {:?}", ev); println!("DISAGREE\n{}\n  compiled  => {}\n  reference => {}\n", src, c, r); }
+                Err(_) => { println!("PANIC\n{}\n", src); }
+            }
+        }
+        println!("agree={} rejected={} inconclusive={} disagree={} {:?}", ag, rej, inc, dis, whys);
+        return;
+    }
+    if args.len() >= 3 && args[1] == "bc" {
+        let b = vh::qv::builtins();
+        match compile_entry(&args[2], &b) { Ok(bc) => { println!("entry={:?} constants={:?}", bc.entry, bc.constants); for (i, f) in bc.functions.iter().enumerate() { println!("fn {} captures={}", i, f.captures); for (k, ins) in f.instructions.iter().enumerate() { println!("  {:3} {:?}", k, ins); } } } Err(e) => println!("compile error: {:?}", e) }
         return;
     }
     if args.len() >= 3 && args[1] == "ast" { println!("{:#?}", vh::c17::parse_ast(&args[2])); return; }
@@ -189,6 +221,7 @@ fn main() {
         "C07" => { vh::c07::check(&rep); rep.finish(vh::c07::RULE, vh::c07::ASSUME, vh::c07::SITUATIONS) }
         "C09" => { vh::c09::check(&rep); rep.finish(vh::c09::RULE, vh::c09::ASSUME, vh::c09::SITUATIONS) }
         "C08" => { vh::c08::check(&rep); rep.finish(vh::c08::RULE, vh::c08::ASSUME, vh::c08::SITUATIONS) }
+        "C02" => { vh::c02::check(&rep); rep.finish(vh::c02::RULE, vh::c02::ASSUME, vh::c02::SITUATIONS) }
         "C16" => { vh::c16::check(&rep); rep.finish(vh::c16::RULE, vh::c16::ASSUME, vh::c16::SITUATIONS) }
         _ => { eprintln!("unknown property {}", id); 2 }
     };
